@@ -195,7 +195,20 @@ def item_call(lib, ex, base, name, args, kw, st, node):
     raise Unsupported("item.%s() (line %d)" % (name, node.lineno))
 
 
+def _nodeattr(st, attr):
+    from pyvc.state import HEAP_SCHEMA
+    key = "nodeattr:" + attr
+    if key not in HEAP_SCHEMA:
+        HEAP_SCHEMA[key] = ("num", "int")
+    st.heap_arr(key)
+    return key
+
+
 def obj_attr(lib, ex, base, attr, st, lineno):
+    if base.kind == "nodeobj":
+        # attribute of the node object handed to a selector: shared mutable state (anyone may change it between
+        # two next() calls)
+        return [(st.heap_get(base, _nodeattr(st, attr)), st)]
     if base.kind == "resource" and attr == "users":
         n = sel(st, "res_users", base.t)
         return [(SList(n, lambda i: VOpaque("request"), ("any",)), st)]
@@ -227,6 +240,9 @@ def obj_attr(lib, ex, base, attr, st, lineno):
 
 
 def set_obj_attr(lib, ex, base, attr, v, st, lineno):
+    if base.kind == "nodeobj":
+        st.heap_set(base, _nodeattr(st, attr), V.as_num(v))
+        return [Outcome("next", st)]
     if base.kind == "item" and attr in ("length",):
         st.heap_set(base, attr, V.as_num(v) if not isinstance(v, VDyn) else Num(v.num))
         return [Outcome("next", st)]
@@ -237,6 +253,8 @@ def set_obj_attr(lib, ex, base, attr, v, st, lineno):
 
 
 def has_attr(lib, ex, v, name, st):
+    if isinstance(v, VObj) and v.kind == "nodeobj":
+        return VBool(z3.Bool("has_%s!%s" % (name, _n())))
     if isinstance(v, VObj) and v.kind == "item" and name in ("conveyor_entry_time",):
         return VBool(z3.Bool("has_%s!%s" % (name, _n())))
     if isinstance(v, VOpt) and isinstance(v.val, VObj):
@@ -436,6 +454,7 @@ class Yields:
             s.ghost["slots"] = [h for h in held if not h.eq(value.t)]
             s.ghost["released"] = True
         s.ghost.setdefault("waits", []).append((lineno, waited, type(value).__name__))
+        s.ghost["last_resume"] = dict(s.f)
         rel = getattr(self.con, "rely", None)
         if rel:
             for nm, cl in rel(st, s):
@@ -501,6 +520,6 @@ def install(lib):
 def chi(lib, cls, name, old, args):
     if name == "always":
         return None
-    if name == "conveyor-edge":
-        return None
+    if name == "before-set-up-is-over":
+        return old.f["stats.last_state_change_time"].isnone
     raise KeyError(name)
